@@ -101,6 +101,7 @@ func c20(c *Ctx) {
 	r.Rule("R-C20.2", "every run-time panic site of the encoder and decoder is discharged (length tests, clamped slice bounds, range bounds; the chunk-size division by constant-prefix call sites)")
 	r.Rule("R-C20.3", "entry length: with budget constant B the chunk size is B-len(prefix); an entry is at most B + digits(index) + len(delimiter) <= 255 for every index a ClientHello-sized payload can need; every module call site passes a constant prefix with 0 < len(prefix) < B")
 	r.Rule("R-C20.5", "the encoder refuses only empty inputs: every error return of BreakIntoNextProtos is reachable only through len(prefix)==0 or len(value)==0 (any other rejection, e.g. a size limit, refuses payloads that fit a ClientHello)")
+	r.Rule("R-C20.6", "the decoder refuses only empty inputs and entries without the delimiter: every error return of CombineFromNextProtos is reachable only through len(prefix)==0, len(chunks)==0 or the not-found edge of the delimiter search (any other rejection, e.g. of the shape of the chunk number, refuses entries the encoder writes)")
 	r.Rule("R-C20.4", "every produced entry starts with the prefix: the format begins with a %s bound to the prefix parameter")
 	r.NotDecided = append(r.NotDecided, "content equality of the round trip for every payload", "interleaving with foreign entries beyond 'entries without the prefix are skipped'")
 
@@ -404,6 +405,65 @@ func c20(c *Ctx) {
 		}
 		if n == 0 {
 			r.OK("R-C20.5", "tls.BreakIntoNextProtos error returns", p.Pos(enc.Pos()), "none")
+		}
+	}
+
+	// R-C20.6
+	{
+		isIn := func(pp core.Path) bool {
+			return len(pp.Fields) == 0 && (pp.Root == ssa.Value(dec.Params[0]) || pp.Root == ssa.Value(dec.Params[1]))
+		}
+		gNonEmpty := core.NonEmpty("prefix / chunks", isIn)
+		gStr := strEmptyGuard("prefix", isIn)
+		isFound := func(v ssa.Value) bool {
+			ok := false
+			eachValue(v, func(x ssa.Value) {
+				if ex, isEx := core.Strip(x).(*ssa.Extract); isEx && ex.Index == 2 {
+					if cc, isCall := ex.Tuple.(*ssa.Call); isCall && core.CalleeName(cc.Common()) == "strings.Cut" {
+						ok = true
+					}
+				}
+			})
+			return ok
+		}
+		gAllowed := core.Guard{Name: "empty input or delimiter not found", Match: func(cond ssa.Value) (int, bool) {
+			if s, ok := gNonEmpty.Match(cond); ok {
+				return 1 - s, true
+			}
+			if s, ok := gStr.Match(cond); ok {
+				return s, true
+			}
+			// found (of strings.Cut, possibly through a helper): the reject edge is the false edge
+			if isFound(cond) {
+				return 1, true
+			}
+			// strings.Index(rest, sep) < 0
+			if bo, ok := cond.(*ssa.BinOp); ok {
+				if ic, _, isIdx := core.IndexPlusConst(bo.X); isIdx && ic != nil {
+					if k, isK := core.ConstInt(bo.Y); isK {
+						switch {
+						case bo.Op == token.LSS && k == 0, bo.Op == token.EQL && k == -1:
+							return 0, true
+						case bo.Op == token.GEQ && k == 0, bo.Op == token.NEQ && k == -1:
+							return 1, true
+						}
+					}
+				}
+			}
+			return 0, false
+		}}
+		ei := core.ErrorResultIndex(dec.Signature)
+		for i, ret := range core.Returns(dec) {
+			if core.ReturnErrKind(ret, ei) == core.ErrNilConst {
+				continue
+			}
+			res := core.CutReach(p, dec, gAllowed, ret.Block())
+			if res.Reachable {
+				r.Add(core.Obligation{Rule: "R-C20.6", Construct: fmt.Sprintf("tls.CombineFromNextProtos error-return#%d", i), Pos: p.Pos(ret.Pos()), Verdict: core.Violated,
+					Detail: "the decoder can refuse an entry for a reason other than a missing delimiter (or empty inputs): entries the encoder writes (e.g. chunk numbers of three or more digits) are rejected", Witness: res.Witness})
+			} else {
+				r.OK("R-C20.6", fmt.Sprintf("tls.CombineFromNextProtos error-return#%d", i), p.Pos(ret.Pos()), "reached only for empty inputs or a missing delimiter")
+			}
 		}
 	}
 
